@@ -239,6 +239,25 @@ def c_oriented(rng):
                 if d != 0 and d != want:
                     out.append(V(f'array.oriented/{kind}/direction', f'row {i} ring {ri} dir {d}', cs.recipe))
                     return out
+    # intersection results are the same before and after (valid polygons: holes wound opposite to their shell, which
+    # is what the generator builds; with a hole wound like its shell the non-zero winding rule itself depends on the
+    # orientation, so nothing is compared there)
+    try:
+        bx = gen.box(rng)
+        if rng.random() < 0.5:
+            # a small box around the centre of some ring's bounding box: inside the solid part or inside a hole
+            rings = [r for el in cs.view if el is not None for r in oracle.parts(kind, el) if len(r) >= 6]
+            if rings:
+                r = rng.choice(rings)
+                cx, cy = (min(r[0::2]) + max(r[0::2])) / 2, (min(r[1::2]) + max(r[1::2])) / 2
+                bx = (cx - 0.25, cy - 0.25, cx + 0.25, cy + 0.25)
+        eff = oracle.norm_box(bx)
+        before_, after_ = [bool(x) for x in cs.arr.intersects_bounds(bx)], [bool(x) for x in o.intersects_bounds(bx)]
+        expb = [bool(oracle.intersects_bounds(kind, el, eff)) for el in cs.view]
+        if before_ != after_ or after_ != expb:
+            out.append(V(f'array.oriented/{kind}/intersection-result-changed', f'box {bx}: before {before_} after {after_} expected {expb}', dict(cs.recipe, box=bx)))
+    except Exception as e:
+        out.append(V(f'array.oriented/{kind}/intersects-after-oriented-raises-{type(e).__name__}', f'{e}', cs.recipe))
     # idempotent
     try:
         oo = o.oriented()
